@@ -59,11 +59,13 @@ theorem perform_inv {s : St} (x : Sess) (svc : Svc) (h : Inv s) : Inv (perform s
   | write v => exact h
   | read => exact h
   | browse => exact h
+  | other k => exact h
   | sub => exact setSess_inv _ _ (fun _ => rfl) h
 
 /-- **The invariant holds after every request.** -/
 theorem step_inv (s : St) (op : Op) (h : Inv s) : Inv (step s op).1 := by
   cases op with
+  | createBadUrl => simp only [step]; split <;> exact h
   | create bits =>
     simp only [step]
     split
@@ -274,6 +276,7 @@ theorem setSess_dead {s : St} {n m : Nat} {f : Sess → Sess} (hf : ∀ y, (f y)
 
 theorem dead_step (n : Nat) (s : St) (op : Op) (h : Dead n s) : Dead n (step s op).1 := by
   cases op with
+  | createBadUrl => simp only [step]; split <;> exact h
   | create bits =>
     simp only [step]
     split
@@ -316,6 +319,7 @@ theorem dead_step (n : Nat) (s : St) (op : Op) (h : Dead n s) : Dead n (step s o
               | write v => exact h
               | read => exact h
               | browse => exact h
+              | other k => exact h
               | sub => exact setSess_dead (fun _ => rfl) h
             generalize perform s x svc = r at *
             obtain ⟨s', o⟩ := r
@@ -470,6 +474,7 @@ theorem setSess_term_timedOut {s : St} {n m : Nat} (h : TimedOutTok n s) :
 theorem timedOutTok_step (n : Nat) (s : St) (op : Op) (h : TimedOutTok n s) :
     TimedOutTok n (step s op).1 := by
   cases op with
+  | createBadUrl => simp only [step]; split <;> exact h
   | create bits =>
     simp only [step]
     split
@@ -519,6 +524,7 @@ theorem timedOutTok_step (n : Nat) (s : St) (op : Op) (h : TimedOutTok n s) :
               | write v => exact h
               | read => exact h
               | browse => exact h
+              | other k => exact h
               | sub => exact setSess_other_timedOut (fun _ => rfl) hne h
             generalize perform s x svc = r at *
             obtain ⟨s', o⟩ := r
